@@ -234,7 +234,12 @@ where
     let mut plus_section = |n: usize, offset: &mut usize| {
         get_section(n, &mut plus_line_offset, offset, &alignment.y, plus_line)
     };
-    let distance_contribution = |section: &str| UnicodeWidthStr::width(section.trim());
+    // (Text which is not whitespace counts, also when it occupies no column, e.g. a zero-width
+    // space or a byte-order mark: lines differing in it are not "equal up to whitespace".)
+    let distance_contribution = |section: &str| {
+        let trimmed = section.trim();
+        UnicodeWidthStr::width(trimmed).max(usize::from(!trimmed.is_empty()))
+    };
 
     let (mut minus_op_prev, mut plus_op_prev) = (noop_deletion, noop_insertion);
     for (op, n) in alignment.coalesced_operations() {
